@@ -751,7 +751,8 @@ func (fr *Frame) call1(in ssa.Instruction, c *ssa.CallCommon, b *ssa.BasicBlock,
 	case *ssa.Builtin:
 		return fr.builtin(in, v, c, args, b, st, guard, setRes)
 	case *ssa.Function:
-		return fr.staticCall(in, v, nil, args, resT, b, st, guard, setRes)
+		st2 := fr.staticCall(in, v, nil, args, resT, b, st, guard, setRes)
+		return fr.lockInterference(in, v, c, st2, guard)
 	case *ssa.MakeClosure:
 		return fr.staticCall(in, v.Fn.(*ssa.Function), v, args, resT, b, st, guard, setRes)
 	}
@@ -984,6 +985,7 @@ func (fr *Frame) havocCall(in ssa.Instruction, name string, args []Val, resT typ
 	fc.assume(sImp(guard, fc.typingFacts(nst, res)), "typing of call result")
 	setRes(res)
 	fr.recordPropagation(in, name, res, guard)
+	fr.recordTolerated(name, res, guard, nst)
 	return nst
 }
 
@@ -992,6 +994,20 @@ func (fr *Frame) recordPropagation(in ssa.Instruction, name string, res Val, gua
 	fc := fr.fc
 	if !fr.isTop || fc.spec == nil {
 		return
+	}
+	for _, c := range fc.spec.Only {
+		hit := false
+		for _, f := range c.Args[1:] {
+			if f == name || strings.HasSuffix(name, "."+f) {
+				hit = true
+			}
+		}
+		if !hit {
+			continue
+		}
+		if errV := errComponent(res); errV != nil {
+			fc.onlyFlags[c.Ord] = append(fc.onlyFlags[c.Ord], propFlag{block: fc.curBlock, seq: fc.seq, cond: sAnd(guard, sNot(sEq(errV.Sub[0].S, "0"))), callee: name})
+		}
 	}
 	for _, c := range fc.spec.Props {
 		hit := false
@@ -1019,6 +1035,42 @@ func (fr *Frame) recordPropagation(in ssa.Instruction, name string, res Val, gua
 			continue
 		}
 		fc.propFlags[c.Ord] = append(fc.propFlags[c.Ord], propFlag{block: fc.curBlock, seq: fc.seq, cond: sAnd(guard, sNot(sEq(errV.Sub[0].S, "0"))), callee: name})
+	}
+}
+
+// recordTolerated tracks "a call to a listed callee returned the tolerated error value".
+func (fr *Frame) recordTolerated(name string, res Val, guard string, st *State) {
+	fc := fr.fc
+	if !fr.isTop || fc.spec == nil {
+		return
+	}
+	for _, c := range fc.spec.Tols {
+		hit := false
+		for _, f := range c.Args[1:] {
+			if f == name || strings.HasSuffix(name, "."+f) {
+				hit = true
+			}
+		}
+		if !hit {
+			continue
+		}
+		var errV *Val
+		if kindOf(res.T) == KIface {
+			errV = &res
+		} else if res.Sub != nil {
+			for i := len(res.Sub) - 1; i >= 0; i-- {
+				if kindOf(res.Sub[i].T) == KIface {
+					errV = &res.Sub[i]
+					break
+				}
+			}
+		}
+		if errV == nil {
+			continue
+		}
+		env := fr.specEnv(st, nil, nil)
+		ev := env.tr(c.Expr)
+		fc.tolFlags[c.Ord] = append(fc.tolFlags[c.Ord], propFlag{block: fc.curBlock, seq: fc.seq, cond: sAnd(guard, env.equal(*errV, ev)), callee: name})
 	}
 }
 
@@ -1323,6 +1375,7 @@ func (fr *Frame) applyContract(sp *FuncSpec, fn *ssa.Function, name string, pnam
 			goal: guard, Tags: fc.spec.allTags(), Text: "the state after this call is consistent with its contract"})
 	}
 	fr.recordPropagation(in, name, res, guard)
+	fr.recordTolerated(name, res, guard, nst)
 	return res, nst
 }
 
@@ -1829,4 +1882,160 @@ func (g *Gen) mapModNames(fc *FnCtx, mv ssa.Value, ms *ModSet) {
 		ms.Names[dom] = true
 		ms.addPfx(pfx + "mapval!" + typeKey(m.Key()) + "!" + typeKey(m.Elem()))
 	}
+}
+
+// lockInterference: between two critical sections of one activation other goroutines may run. When a lock that some
+// "guarded T.f by m" declaration names is acquired again after this function released it (a release site reaches the
+// acquisition in the control-flow graph), the guarded field of that object - and the contents of the map it holds - take
+// unknown values. The first acquisition keeps the entry values: the contracts are sequential specifications, with the
+// function's one critical section as the atomic step.
+func (fr *Frame) lockInterference(in ssa.Instruction, callee *ssa.Function, c *ssa.CallCommon, st *State, guard string) *State {
+	fc := fr.fc
+	nm := fnName(callee)
+	switch nm {
+	case "(*sync.RWMutex).Lock", "(*sync.RWMutex).RLock", "(*sync.Mutex).Lock":
+	default:
+		return st
+	}
+	if len(c.Args) != 1 {
+		return st
+	}
+	fa, ok := c.Args[0].(*ssa.FieldAddr)
+	if !ok {
+		return st
+	}
+	stT := pointee(fa.X.Type())
+	if stT == nil {
+		return st
+	}
+	stru, ok := stT.Underlying().(*types.Struct)
+	if !ok {
+		return st
+	}
+	lockName := stru.Field(fa.Field).Name()
+	stn := structName(stT)
+	if !fr.releasedBefore(in, stn, lockName) {
+		return st
+	}
+	base := fr.val(fa.X, st)
+	for _, gd := range fc.g.specs.Guards {
+		if gd.Type != stn || gd.Lock != lockName {
+			continue
+		}
+		for i := 0; i < stru.NumFields(); i++ {
+			if stru.Field(i).Name() != gd.Field {
+				continue
+			}
+			ft := stru.Field(i).Type()
+			ad := &Addr{Kind: aField, Obj: base.S, ST: stT, F: i}
+			old := fc.load(st, ad, ft)
+			nv := fc.freshVal(ft, "interf")
+			if guard != "true" {
+				nv = fr.mergeVals(ft, []Val{nv, old}, []string{guard, "true"})
+			}
+			if _, isMap := ft.Underlying().(*types.Map); isMap && kindOf(ft) == KRef {
+				// the contents of the map held before are unknown as well
+				hav := func(arr string) {
+					srt := fc.arrSort(arr)
+					// (Array Int X): replace the row of the old map
+					if !strings.HasPrefix(srt, "(Array Int ") {
+						return
+					}
+					inner := strings.TrimSuffix(strings.TrimPrefix(srt, "(Array Int "), ")")
+					fn := fc.freshName("interfrow")
+					fc.declareConst(fn, inner)
+					row := sym(fn)
+					if guard != "true" {
+						row = sIte(guard, row, sx("select", st.get(arr), old.S))
+					}
+					st = st.store(arr, sx("store", st.get(arr), old.S, row))
+				}
+				hav(fc.maplenArr(old.S))
+				if dom, val, _, _ := fc.mapArrs(ft, old.S); dom != "" {
+					hav(dom)
+					if val != "" {
+						hav(val)
+					}
+					for _, l := range fc.mapValLeaves(ft, old.S) {
+						hav(l.arr)
+					}
+				}
+				fc.note("lock re-acquisition: the guarded " + gd.Type + "." + gd.Field + " and the contents of its map are havocked (other goroutines ran between the two critical sections)")
+			} else {
+				fc.note("lock re-acquisition: the guarded " + gd.Type + "." + gd.Field + " is havocked (other goroutines ran between the two critical sections)")
+			}
+			st = fc.storeVal(st, ad, ft, nv)
+		}
+	}
+	return st
+}
+
+// releasedBefore: some Unlock/RUnlock call on the same lock field (by struct type and field name) can reach instruction
+// `at` in the control-flow graph of its function.
+func (fr *Frame) releasedBefore(at ssa.Instruction, stn, lockName string) bool {
+	isRelease := func(in ssa.Instruction) bool {
+		cl, ok := in.(*ssa.Call)
+		if !ok {
+			return false
+		}
+		f, ok := cl.Call.Value.(*ssa.Function)
+		if !ok || len(cl.Call.Args) != 1 {
+			return false
+		}
+		switch fnName(f) {
+		case "(*sync.RWMutex).Unlock", "(*sync.RWMutex).RUnlock", "(*sync.Mutex).Unlock":
+		default:
+			return false
+		}
+		fa, ok := cl.Call.Args[0].(*ssa.FieldAddr)
+		if !ok {
+			return false
+		}
+		t := pointee(fa.X.Type())
+		if t == nil {
+			return false
+		}
+		s, ok := t.Underlying().(*types.Struct)
+		return ok && structName(t) == stn && s.Field(fa.Field).Name() == lockName
+	}
+	blk := at.Block()
+	for _, in := range blk.Instrs {
+		if in == at {
+			break
+		}
+		if isRelease(in) {
+			return true
+		}
+	}
+	// blocks that reach blk (including blk itself through a cycle)
+	seen := map[*ssa.BasicBlock]bool{}
+	work := append([]*ssa.BasicBlock{}, blk.Preds...)
+	for len(work) > 0 {
+		x := work[len(work)-1]
+		work = work[:len(work)-1]
+		if seen[x] {
+			continue
+		}
+		seen[x] = true
+		for _, in := range x.Instrs {
+			if isRelease(in) {
+				return true
+			}
+		}
+		work = append(work, x.Preds...)
+	}
+	return false
+}
+
+// errComponent: the last result of interface type.
+func errComponent(res Val) *Val {
+	if kindOf(res.T) == KIface {
+		return &res
+	}
+	for i := len(res.Sub) - 1; i >= 0; i-- {
+		if kindOf(res.Sub[i].T) == KIface {
+			return &res.Sub[i]
+		}
+	}
+	return nil
 }
